@@ -283,9 +283,9 @@ fn do_remapping_loop_one_device(driver: &mut impl Driver, layout: Layout, verbos
         }
       };
       proof {
-        //@ C11 | the wait is exactly what is left until the next chord is due (at least 1 ms), measured from a clock reading taken in this iteration; no timer ==> wait without time-out
+        //@ C11 | the wait is exactly what is left until the next chord is due, measured from a clock reading taken in this iteration (when the chord is already due: at most 1 ms); no timer ==> wait without time-out
         assert(match exp { None => timeout is None,
-                           Some(_) => timeout is Some && dur_ns(timeout.unwrap()) == (if now_ns >= nw_ns { 1000000 } else { nw_ns - now_ns }) });
+                           Some(_) => timeout is Some && (if now_ns >= nw_ns { 0 <= dur_ns(timeout.unwrap()) <= 1000000 } else { dur_ns(timeout.unwrap()) == nw_ns - now_ns }) });
       }
 
       match driver.poll(&mut poll, timeout)? {
